@@ -298,6 +298,30 @@ def infer(prog, order, perms, mode):
         built[pn] = [build_stmt(d, f"{pn}_{i}") for i, d in enumerate(prog["phases"][pn])]
     freg = registry()
     buf = io.StringIO()
+    import dagrt.data as D
+    absorbed = []
+    prev_set = D.SymbolKindTable.set
+
+    def watching_set(self_, phase_name, name, kind):
+        # a variable that is given BOTH a scalar and a user-type value: 'set' merges with the arithmetic rule
+        # unify(UserType, Scalar) = UserType, i.e. the scalar kind is silently absorbed
+        tbl = self_.global_table if D.is_state_variable(name) else self_.per_phase_table.get(phase_name, {})
+        old = tbl.get(name)
+        if old is not None and {isinstance(old, D.UserType), isinstance(kind, D.UserType)} == {True, False} \
+                and isinstance(old, (D.UserType, D.Scalar, D.Integer)) \
+                and isinstance(kind, (D.UserType, D.Scalar, D.Integer)):
+            absorbed.append(name)
+        return prev_set(self_, phase_name, name, kind)
+    D.SymbolKindTable.set = watching_set
+    try:
+        return _infer(prog, order, perms, mode, built, freg, buf) + (len(absorbed),)
+    finally:
+        D.SymbolKindTable.set = prev_set
+
+
+def _infer(prog, order, perms, mode, built, freg, buf):
+    from dagrt.data import SymbolKindFinder, infer_kinds
+    from dagrt.language import DAGCode, ExecutionPhase
     try:
         with redirect_stdout(buf):
             if mode == "finder":
@@ -406,6 +430,8 @@ def check_program(prog, rec, rng, nperm, conflict, mon=None):
             swallowed = a[2] + b[2]
             if swallowed:
                 mech = "order-dependent-table-kind-conflict-first-wins"
+            elif a[0] == b[0] and a[3] + b[3]:
+                mech = "order-dependent-table-variable-holds-scalar-and-user-type"
             elif a[0] != b[0]:
                 mech = "order-dependent-success-vs-failure"
             else:
@@ -475,8 +501,9 @@ def run_shard(shard, rec):
         for prog, base, got in zip(progs, bases, lst):
             rec.count("hashseed_tables_compared")
             if got[0] != base[0] or (got[0] == "ok" and got[1] != base[1]):
-                mech = ("order-dependent-table-kind-conflict-first-wins"
-                        if (got[2] or base[2]) else "hashseed-dependent-table")
+                mech = ("order-dependent-table-kind-conflict-first-wins" if (got[2] or base[2]) else
+                        "order-dependent-table-variable-holds-scalar-and-user-type"
+                        if (got[0] == base[0] and got[3] + base[3]) else "hashseed-dependent-table")
                 rec.violation(mech,
                               f"PYTHONHASHSEED={s} gives {got[:2]} but seed 0 gives {base[:2]}",
                               {"prog": prog, "hashseed": s})
